@@ -323,3 +323,47 @@ pub fn arbitrary_unicode(r: &mut Rng) -> String {
     }
     s
 }
+
+/// Bracket soup: openers, closers (often the wrong kind), quotes, backslashes, slashes and newlines,
+/// with the running count steered to hover around the depth limit. Exercises the pre-scan's stack
+/// discipline (a closer pops only its own opener), its string / escape / comment states and the
+/// exact position of the refusal — the things the Lean model mirrors branch by branch.
+pub fn bracket_soup(r: &mut Rng) -> String {
+    let cap = if r.chance(1, 4) { 900 } else { 300 };
+    let n = 40 + r.usize(cap);
+    let target: i64 = *r.pick(&[10, 60, 63, 64, 65, 66, 70, 120]);
+    let wrong_closers = r.chance(1, 2);
+    let mut s = String::new();
+    let mut open: Vec<char> = Vec::new();
+    if r.chance(1, 3) {
+        s.push_str(*r.pick(&["FIND(?x) WHERE { ?x { a: ", "DESCRIBE ACCESS WITH ", "MUTATE { ", "// ", "\""]));
+    }
+    for _ in 0..n {
+        let d = open.len() as i64;
+        let k = r.below(100);
+        if k < 8 {
+            s.push(*r.pick(&['"', '"', '\\', '/', '/', '\n', ' ', 'a', ',', ':', '1', '?', '\'', '\t', 'é']));
+            if r.chance(1, 3) {
+                s.push(*r.pick(&['"', '/', '\\', '\n']));
+            }
+        } else if (d < target && k < 70) || (d >= target && k < 30) {
+            let c = *r.pick(&['(', '[', '{']);
+            open.push(c);
+            s.push(c);
+        } else {
+            let right = match open.last() {
+                Some('(') => ')',
+                Some('[') => ']',
+                Some('{') => '}',
+                _ => ')',
+            };
+            if wrong_closers && r.chance(1, 3) {
+                s.push(*r.pick(&[')', ']', '}']));
+            } else {
+                open.pop();
+                s.push(right);
+            }
+        }
+    }
+    s
+}
